@@ -16,6 +16,7 @@
 //            a removed id never reappears.  Each run is executed in a forked child.
 // Debugging aids (never set by checks/C04.py): C04_NOFORK=1 runs a solver case in-process, C04_DEBUG=1 traces every phase on stderr.
 #include "vh.hpp"
+#include <atomic>
 #include "gen.hpp"
 #include "oracle.hpp"
 #include "solver.hpp"
@@ -34,10 +35,10 @@ const char* CLSNAME[5] = {"epithelial", "ecm", "lumen", "nucleus", "static"};
 
 // ---- H2: deterministic, well mixed seed per (site, context, counter) ----------------------------------------
 // std::minstd_rand maps nearby seeds to nearby first outputs, so the seed itself must already be a hash.
-uint64_t g_rng_base = 0, g_rng_counter = 0; long g_rng_calls[2] = {0, 0};
+uint64_t g_rng_base = 0; std::atomic<uint64_t> g_rng_counter{0}; std::atomic<long> g_rng_calls[2];   // the sink is called from the parallel division loop of 4-thread runs
 uint64_t seed_sink(int site, uint64_t ctx) {
     if (site == 0 || site == 1) g_rng_calls[site]++;
-    return mix64(hash_combine(hash_combine(g_rng_base, (uint64_t)site + 0x51ULL), hash_combine(ctx, g_rng_counter++)));
+    return mix64(hash_combine(hash_combine(g_rng_base, (uint64_t)site + 0x51ULL), hash_combine(ctx, g_rng_counter.fetch_add(1))));
 }
 void rng_case(uint64_t seed, long i, uint64_t tag) { g_rng_base = hash_combine(hash_combine(seed, tag), (uint64_t)i); g_rng_counter = 0; verif::get().rng_seed = seed_sink; }
 
